@@ -24,12 +24,13 @@ theorem slice_mover_only (gt gt' : GameTime) (c : Color) (hm : gt.movestogo = gt
     (hw : c = .white → gt.wtime = gt'.wtime ∧ gt.winc = gt'.winc)
     (hb : c = .black → gt.btime = gt'.btime ∧ gt.binc = gt'.binc) :
     calculateTimeSlice gt c = calculateTimeSlice gt' c := by
+  have hmtg : gt.mtg = gt'.mtg := by unfold GameTime.mtg; rw [hm]
   unfold calculateTimeSlice
   cases c
   · obtain ⟨h1, h2⟩ := hw rfl
-    simp only [hm, h1, h2]
+    simp only [hmtg, h1, h2]
   · obtain ⟨h1, h2⟩ := hb rfl
-    simp only [hm, h1, h2]
+    simp only [hmtg, h1, h2]
 
 /-- the saturating cast never leaves the u128 range, and is 0 for non-positive values -/
 theorem toU128_range (n : Int) : F64.toU128 n < 2 ^ 128 ∧ (n ≤ 0 → F64.toU128 n = 0) := by
@@ -58,23 +59,46 @@ example : calculateTimeSlice { wtime := 50, winc := 1000 } .white = 50 := by dec
 example : calculateTimeSlice { wtime := 100, winc := 0 } .white = 0 := by decide +kernel
 example : calculateTimeSlice { btime := 60100, movestogo := some 10 } .black = 4800 := by decide +kernel
 
-/-- moves to go as the code reads them: the given number, or 30 -/
-def movesToGo (gt : GameTime) : Nat := gt.movestogo.getD 30
+/-- moves to go as the code reads them: the number told if it is positive, else 30
+    (`movestogo 0` counts as not told — fix e30d5a0) -/
+def movesToGo (gt : GameTime) : Nat := gt.mtg
 
-/-- **C09**: the planned time never exceeds the mover's remaining clock -/
-theorem slice_never_exceeds_clock (gt : GameTime) (c : Color) (hm : 1 ≤ movesToGo gt) (hm32 : movesToGo gt < 2 ^ 32) :
+theorem movesToGo_pos (gt : GameTime) : 1 ≤ movesToGo gt := by
+  unfold movesToGo GameTime.mtg
+  cases gt.movestogo with
+  | none => decide
+  | some m =>
+    simp only
+    split
+    · decide
+    · omega
+
+/-- **C09**: the planned time never exceeds the mover's remaining clock — every clock and increment,
+    every `movestogo` a u32 can hold (0 included), or none -/
+theorem slice_never_exceeds_clock (gt : GameTime) (c : Color) (hm32 : movesToGo gt < 2 ^ 32) :
     ((calculateTimeSlice gt c : Nat) : Int) ≤ max (moverClock gt c) 0 := by
   rw [calculateTimeSlice_eq]
-  exact slice_le_clock _ _ _ hm hm32
+  exact slice_le_clock _ _ _ (movesToGo_pos gt) hm32
 
 /-- **C09**: with more than the 100 ms margin left the plan is at most 80 % of (clock − margin) divided
     by the moves to go (30 when not told), up to binary64 rounding and whole-millisecond rounding -/
 theorem slice_at_most_80_percent_share (gt : GameTime) (c : Color) (hc : 100 < moverClock gt c)
-    (hm : 1 ≤ movesToGo gt) (hm32 : movesToGo gt < 2 ^ 32) :
+    (hm32 : movesToGo gt < 2 ^ 32) :
     ((calculateTimeSlice gt c : Nat) : ℚ) ≤
       4 / 5 * ((moverClock gt c : ℚ) - 100) / (movesToGo gt : ℚ) * (1 + 1 / 2 ^ 50) + 1 / 2 := by
   rw [calculateTimeSlice_eq]
-  exact slice_share _ _ _ (by omega) hm hm32
+  exact slice_share _ _ _ (by omega) (movesToGo_pos gt) hm32
+
+/-- every `movestogo` value the parser can produce (a u32) satisfies the size premise -/
+theorem movesToGo_u32 (gt : GameTime) (h : ∀ m, gt.movestogo = some m → m < 2 ^ 32) : movesToGo gt < 2 ^ 32 := by
+  unfold movesToGo GameTime.mtg
+  cases hm : gt.movestogo with
+  | none => decide
+  | some m =>
+    simp only
+    split
+    · decide
+    · exact h m hm
 
 /-- **C09**: no usable clock and no increment ⇒ zero -/
 theorem slice_zero_without_clock_and_increment (gt : GameTime) (c : Color) (hc : moverClock gt c ≤ 100)
@@ -83,7 +107,10 @@ theorem slice_zero_without_clock_and_increment (gt : GameTime) (c : Color) (hc :
   exact slice_zero _ _ _ hc hi
 
 /-- the premises are satisfiable, and huge values are covered: an i128-sized clock -/
-example : (1 : Nat) ≤ movesToGo { wtime := 2 ^ 126 } ∧ movesToGo { wtime := 2 ^ 126 } < 2 ^ 32 ∧
-    (100 : Int) < moverClock { wtime := 2 ^ 126 } .white := by decide
+example : movesToGo { wtime := 2 ^ 126 } < 2 ^ 32 ∧ (100 : Int) < moverClock { wtime := 2 ^ 126 } .white := by decide
+
+/-- `movestogo 0` (the defect repaired in e30d5a0: it used to plan 2^128 − 1 ms) is planned like no
+    `movestogo` at all -/
+example : calculateTimeSlice { wtime := 1000, movestogo := some 0 } .white = 24 := by decide +kernel
 
 end Walleye
